@@ -7,6 +7,7 @@
 #define DUNE_BIGUNSIGNEDINT_HH
 
 #include <algorithm>
+#include <cmath>
 #include <iostream>
 #include <limits>
 #include <cstdint>
@@ -250,7 +251,7 @@ namespace Dune
     double val=0;
     for(int i=firstInZeroRange-1; i>=lastInRepresentableRange; --i)
       val =val*(1<<bits)+digit[i];
-    return val*(1<<(bits*lastInRepresentableRange));
+    return std::ldexp(val, bits*lastInRepresentableRange);
   }
   // print
   template<int k>
